@@ -1,6 +1,7 @@
 package main
 
 import (
+	"go/token"
 	"fmt"
 	"go/ast"
 	"sort"
@@ -216,6 +217,32 @@ func ruleSetMethods(c *Ctx) {
 					report("itertag", "the iterator's current tag is not updated to the new type", "read the value back through the same iterator")
 				}
 			}
+			if sp0.fn == "Iter.SetBool" {
+				// the new tag depends on the argument: 't' under v, 'f' under !v
+				var vTrue, vFalse bool
+				for _, cd := range sp.Conds {
+					if cd.Other == "P:v" {
+						vTrue = true
+					}
+					if cd.Other == "!P:v" {
+						vFalse = true
+					}
+				}
+				want := int64('f')
+				if vTrue && !vFalse {
+					want = 't'
+				}
+				okT := vTrue != vFalse
+				found := false
+				for _, ef := range otherStores {
+					if ef.Target == "R.t" {
+						found = ef.Val.IsConst() && ef.Val.K == want
+					}
+				}
+				if !okT || !found {
+					report("itertag", "after SetBool the iterator's current tag is not the tag of the value just written", "SetBool(true) on a false value, then Bool() on the same iterator")
+				}
+			}
 		}
 		// gate
 		var acc []int64
@@ -309,6 +336,23 @@ func ruleClone(c *Ctx) {
 				}
 				continue
 			}
+			// reslicing the destination's own storage needs room: cap(dst.X) >= len(src.X) established on the path;
+			// a fresh buffer must have been made with exactly the source length
+			if own {
+				if !hasCond(sp, "cap(P:dst."+fld+")", token.GEQ, "len("+src+")") {
+					msg := "the destination's own " + fld + " is resliced to the source length without cap(dst." + fld + ") >= len(src." + fld + ") having been established: a smaller destination panics (slice bounds out of range)"
+					if !bad[msg] {
+						bad[msg] = true
+						c.Bad("Clone:"+fld+":room", p.Pos(fd), msg, "Clone into a destination that was used for a smaller document")
+					}
+				}
+			} else if !strings.HasPrefix(reCallNum.ReplaceAllString(base, ""), "make(") || !strings.HasSuffix(reCallNum.ReplaceAllString(base, ""), ",len("+src+"))") {
+				msg := "the fresh " + fld + " of the clone is " + base + ", expected make(…, len(src." + fld + "))"
+				if !bad[msg] {
+					bad[msg] = true
+					c.Bad("Clone:"+fld+":room", p.Pos(fd), msg, "")
+				}
+			}
 			copied := false
 			for _, ef := range sp.Effects {
 				if ef.Kind == "call" && ef.Target == "copy" && len(ef.Args) == 2 && ef.Args[1].String() == src && strings.HasPrefix(a, ef.Args[0].String()) {
@@ -320,6 +364,28 @@ func ruleClone(c *Ctx) {
 				if !bad[msg] {
 					bad[msg] = true
 					c.Bad("Clone:"+fld+":copy", p.Pos(fd), msg, "")
+				}
+			}
+		}
+		// nil destination / nil Strings are replaced by fresh values before use
+		if hasCond(sp, "P:dst", token.EQL, "nil") == strings.HasPrefix(root, "P:dst") {
+			if !bad["dstnil"] {
+				bad["dstnil"] = true
+				c.Bad("Clone:destination", p.Pos(fd), "the result is the parameter although it is nil, or a fresh value although a destination was supplied", "Clone(nil)")
+			}
+		}
+		if root == "P:dst" {
+			sNil, sSet := hasCond(sp, "P:dst.Strings", token.EQL, "nil"), hasCond(sp, "P:dst.Strings", token.NEQ, "nil")
+			fresh := false
+			for _, ef := range sp.Effects {
+				if ef.Kind == "store" && ef.Target == "P:dst.Strings" && strings.HasPrefix(ef.Val.String(), "&lit:TStrings{") {
+					fresh = true
+				}
+			}
+			if sNil == sSet || sNil != fresh {
+				if !bad["strnil"] {
+					bad["strnil"] = true
+					c.Bad("Clone:Strings-nil", p.Pos(fd), "a destination without a string buffer does not get a fresh one (or one that has it gets it replaced)", "Clone into &ParsedJson{}")
 				}
 			}
 		}
